@@ -10,7 +10,7 @@ use std::{
     ffi::{OsStr, OsString},
     fmt::Display,
     fs,
-    io::{self, BufRead, BufReader, Read},
+    io::{self, BufRead, BufReader, Read, Write},
     process::{Command, Stdio},
 };
 
@@ -535,7 +535,7 @@ impl CommandBuilder<'_> {
         }
 
         if self.options.verbose {
-            eprintln!("{command:?}");
+            let _ = writeln!(io::stderr(), "{command:?}");
         }
 
         match &self.options.action {
@@ -923,10 +923,11 @@ fn normalize_options<'a>(
                 (options.max_args, options.max_lines, &None)
             }
             _ => {
-                eprintln!(
-                "WARNING: -L, -n and -I/-i are mutually exclusive, but more than one were given; \
-                only the last option will be used"
-            );
+                let _ = writeln!(
+                    io::stderr(),
+                    "WARNING: -L, -n and -I/-i are mutually exclusive, but more than one were \
+                     given; only the last option will be used"
+                );
                 let lines_index = matches
                     .indices_of(options::MAX_LINES)
                     .and_then(|mut v| v.next_back());
@@ -1184,7 +1185,7 @@ pub fn xargs_main(args: &[&str]) -> i32 {
         Ok(CommandResult::Success) => 0,
         Ok(CommandResult::Failure) => 123,
         Err(e) => {
-            eprintln!("Error: {e}");
+            let _ = writeln!(io::stderr(), "Error: {e}");
             if let XargsError::CommandExecution(cx) = e {
                 match cx {
                     CommandExecutionError::UrgentlyFailed => 124,
